@@ -58,6 +58,8 @@ var witnesses = []witness{
 	{"S3-star-index", "C02", "-switch: skip-first-check through *: index out of range", g(seq(alt(rng('0', '9'), seq(star(seq(lit("a"), lit("b"))), lit("a"), lit("c")), lit("d"), lit("e")))), 0, "abxb"},
 	{"S3-peeknot", "C02", "-switch: skip-first-check propagated through !", g(alt(lit("f"), seq(not(lit("f")), lit("1")), lit("d"))), 0, "1"},
 	{"S2-any-consumes", "C02", "-switch: a nullable choice in front of the leading character must keep that character in the first set", g(alt(seq(altE(lit("-"), lit("+")), plus(rng('0', '9'))), plus(rng('a', 'z')), seq(lit("("), ref(0), lit(")")))), 0, "5"},
+	{"seed-optional-subset-prefix", "C13", "-switch: an optional element in front of the element the case labels come from must not cost that element its test", g(alt(seq(opt(rng('0', '2')), rng('0', '9')), plus(rng('a', 'z')), lit(" "))), 0, "1"},
+	{"seed-optional-subset-prefix", "C02", "-switch: an optional element in front of the element the case labels come from must not cost that element its test", g(alt(seq(opt(rng('0', '2')), rng('0', '9')), plus(rng('a', 'z')), lit(" "))), 0, "1"},
 	{"k03-query-restore", "C01", "? must restore the position after a partial match", g(seq(opt(seq(lit("a"), lit("b"))), lit("a"), lit("c"))), 0, "ac"},
 	{"k02-peeknot-restore", "C01", "! must restore the position after its operand failed having consumed", g(seq(not(seq(lit("a"), lit("b"))), lit("a"), lit("c"))), 0, "ac"},
 	{"seed-bare-lookahead-alternative", "C01", "a bare lookahead as a non-final alternative fails after reading a character", g(seq(lit("a"), alt(not(dot()), lit("\n")))), 0, "a\n"},
